@@ -1,9 +1,21 @@
 #!/bin/bash
-# Builds bin/vcheck against /repo's working tree. The overlay only ADDS files (tag: verif).
+# Builds the check binaries against /repo's working tree.
+#   bin/vcheck  all checks except C08/C09; the overlay only ADDS files (tag: verif).
+#   bin/vsched  C08/C09: /repo's files that use sync, sync/atomic, goroutines or channels are replaced IN THE BUILD
+#               (overlay; /repo untouched) by copies instrumented by tools/rewrite from the current working tree, and the
+#               scheduler shims of /verif/shim are added as virtual packages (tags: verif vsched).
 set -eu
 cd "$(dirname "$0")"
 export GOFLAGS=-mod=mod GOPROXY=off GOSUMDB=off GOTOOLCHAIN=local
 mkdir -p bin .work
 cp /repo/go.sum go.sum 2>/dev/null || true
-python3 overlay/mkoverlay.py > .work/overlay.json
-go build -tags verif -overlay .work/overlay.json -o bin/vcheck ./cmd/vcheck
+what="${1:-all}"
+if [ "$what" = all ] || [ "$what" = vcheck ]; then
+  python3 overlay/mkoverlay.py > .work/overlay.json
+  go build -tags verif -overlay .work/overlay.json -o bin/vcheck ./cmd/vcheck
+fi
+if [ "$what" = all ] || [ "$what" = vsched ]; then
+  go build -o bin/rewrite ./tools/rewrite
+  python3 tools/mksched.py > .work/sched.json
+  go build -tags "verif vsched" -overlay .work/sched.json -o bin/vsched ./cmd/vsched
+fi
